@@ -21,7 +21,7 @@ THEOREMS = [
     "VK.C17_rd_two_seats",
 ]
 RULE = ("cases = RandomDictator / BoostedRandomDictator on random profiles (1-6 candidates, ties in first place, partial "
-        "ballots, rational weights) x m x seeds: every call of random.choices / random.uniform / numpy.random.choice / "
+        "ballots, rational weights; 15% with unequal weights of mean exactly one) x m x seeds: every call of random.choices / random.uniform / numpy.random.choice / "
         "random.sample made by the implementation is compared with what the documented law needs at that round (the "
         "population is the current profile's ballots with their weights; the squares vector is fpv^2 normalised; the "
         "branch threshold is 1/(c-1); a tied first place is sampled as a whole); the model's round law (computed in Dist "
@@ -52,6 +52,19 @@ def cases(rng, tier, shard, nshards, phase):
         rule = rng.choice(["RandomDictator", "BoostedRandomDictator"])
         case = c01.gen_case(rng, rule)
         case["op"] = "run" if rng.random() < 0.7 else "law"
+        bs = case["spec"]["b"]
+        if len(bs) >= 2 and rng.random() < 0.15:
+            # unequal rational weights whose mean is exactly one (total weight = number of rows): a profile that looks
+            # "unweighted" to a test on totals although its rows weigh differently
+            k = len(bs)
+            for _ in range(20):
+                ws = [Fraction(rng.randint(1, 7), 4) for _ in range(k - 1)]
+                last = k - sum(ws)
+                if last > 0 and len(set(ws + [last])) > 1:
+                    for b, w in zip(bs, ws + [last]):
+                        b["w"] = rat(w)
+                    case["mean_one"] = True
+                    break
         yield case
 
 
@@ -162,6 +175,13 @@ def run_case(vk, case):
                 break
             _, pop, weights, result = calls[ci]
             ci += 1
+            if weights is None:
+                # a uniform pick among the ballot rows (random.choice / choices without weights) is the documented
+                # weight-proportional draw only when all rows weigh the same
+                if len({Fraction(b.weight) for b in pop}) > 1:
+                    fail("uniform-ballot-draw-on-unequal-weights",
+                         f"round {rnd}: rows weigh {[str(Fraction(b.weight)) for b in pop][:8]}")
+                weights = [b.weight for b in pop]
             got = {}
             for b, wt in zip(pop, weights):
                 k = str(names.ranking_raw(b.ranking))
